@@ -32,6 +32,7 @@ CODES = {
     1: "model does not predict the command / reconcile",
     10: "a command changed something other than its documented annotation or condition",
     11: "a command acted although its precondition does not hold",
+    12: "the annotations a command leaves do not mean what the command says in the controllers' reading (e.g. paused while canary-unpaused stays true)",
     # the reconciles that follow a command: monitors of C08 (+20), C05 (+30), C07 (+50)
     30: "a pod was deleted for updating while rolling-update-paused is true",
     31: "a pod was created or deleted for updating while rollout-frozen is true",
